@@ -60,7 +60,7 @@ pub fn def() -> CheckDef {
         id: "C03",
         rule: "proptest: packets as in C02 whose owner, question and RDATA names come from suffix trees over a tiny label pool (constant sharing; pairs differing only in a leading or trailing label), with filler records that move later names just below / at / above offset 16383 and up to 65535 bytes; oracle observe(parse(compressed)) == observe(parse(plain)) == model and len(compressed) <= len(plain). Non-trivial = the compressed output is strictly shorter (at least one pointer emitted); classes report messages over 16 KiB and names first written above 16383 that repeat",
         assumptions: vec!["same exclusions as C02"],
-        sections: vec![Box::new(PropSection { name: "transparent", rule: "compressed == plain == model", strategy, cases: (40_000, 600_000), check })],
+        sections: vec![Box::new(PropSection { name: "transparent", rule: "compressed == plain == model", strategy, cases: (200_000, 1_500_000), check })],
     }
 }
 
